@@ -398,11 +398,22 @@ def rule_collide(ctx) -> RuleResult:
         if not q.startswith(("aggregate_flox.", "aggregate_npg.", "aggregate_numbagg.")):
             continue
         f = prog.funcs[q]
-        # substitute variable: np.where(isnull(x), V, x)
+        # substitute variable: np.where(isnull(x), V, x)   (the mask may be bound to a local first)
         subs = set()
+        local_vals = {}
+        for n in walk_own(f.node):
+            if isinstance(n, ast.Assign) and len(n.targets) == 1 and isinstance(n.targets[0], ast.Name):
+                local_vals.setdefault(n.targets[0].id, []).append(n.value)
+
+        def is_null_test(e, depth=0) -> bool:
+            if isinstance(e, ast.Call) and norm(e.func) in ("isnull", "np.isnan", "numpy.isnan", "pd.isnull"):
+                return True
+            if isinstance(e, ast.Name) and depth < 3:
+                return any(is_null_test(v, depth + 1) for v in local_vals.get(e.id, []))
+            return False
+
         for c in calls_in(f.node):
-            if norm(c.func) in ("np.where", "numpy.where") and len(c.args) == 3 and isinstance(c.args[0], ast.Call) \
-                    and norm(c.args[0].func) in ("isnull", "np.isnan", "pd.isnull") and isinstance(c.args[1], ast.Name):
+            if norm(c.func) in ("np.where", "numpy.where") and len(c.args) == 3 and is_null_test(c.args[0]) and isinstance(c.args[1], ast.Name):
                 subs.add(c.args[1].id)
         if not subs:
             continue
@@ -417,11 +428,21 @@ def rule_collide(ctx) -> RuleResult:
                 guarded = False
                 if tgt:
                     # accepted repair: the detector is conjoined with a count-of-valid-members test before it is used as a mask
+                    def counts_valid(e) -> bool:
+                        """<count> == 0 where <count> is derived from nanlen / notnull of the data (number of valid members)"""
+                        for cmp_ in ast.walk(e):
+                            if isinstance(cmp_, ast.Compare) and len(cmp_.ops) == 1 and isinstance(cmp_.ops[0], ast.Eq) \
+                                    and norm(cmp_.comparators[0]) == "0":
+                                srcs = [cmp_.left] + [v for nm in names_in(cmp_.left) for v in local_vals.get(nm, [])]
+                                if any("nanlen" in norm(x) or "notnull" in norm(x) for x in srcs):
+                                    return True
+                        return False
+
                     for m in walk_own(f.node):
-                        if isinstance(m, ast.AugAssign) and isinstance(m.op, ast.BitAnd) and norm(m.target) == tgt and "== 0" in norm(m.value):
+                        if isinstance(m, ast.AugAssign) and isinstance(m.op, ast.BitAnd) and norm(m.target) == tgt and counts_valid(m.value):
                             guarded = True
                         if isinstance(m, ast.Assign) and norm(m.targets[0]) == tgt and isinstance(m.value, ast.BinOp) and isinstance(m.value.op, ast.BitAnd) \
-                                and tgt in norm(m.value) and "== 0" in norm(m.value):
+                                and tgt in norm(m.value) and counts_valid(m.value):
                             guarded = True
                     # and the count must be of valid members of the *original* array
                 res.inst(f"{q}: {norm(n)} (substitute {sorted(subs)}) conjoined with a valid-member count: {guarded}", f"{q}|{norm(n)}")
